@@ -28,7 +28,7 @@ APPEND_POST = [
     # no duplicates are introduced
     f"not old({NODUP.format(l=L)}) or {NODUP.format(l=L)}",
     # appending a duplicate-free list to the empty list yields exactly that list (same order)
-    f"len(old({L})) > 0 or patterns_to_append is None or not ({NODUP.format(l='patterns_to_append')}) or {L} == patterns_to_append",
+    f"len(old({L})) > 0 or patterns_to_append is None or not ({NODUP.format(l='patterns_to_append')}) or (len({L}) == len(patterns_to_append) and all({L}[j] == patterns_to_append[j] for j in range(len(patterns_to_append))))",
 ]
 contract(
     "ascmhl.ignore.MHLIgnoreSpec._append_patterns_list",
